@@ -384,8 +384,14 @@ def closed(spec) -> ClosedForm:
 def nucleation_temperature(spec):
     cf = closed(spec)
     if cf.Tc is not None:
-        return cf.Tc * (1.0 - spec["delta"])
-    return float(spec["Tn"]) * float(spec.get("units", 1.0))
+        Tn = cf.Tc * (1.0 - spec["delta"])
+    else:
+        Tn = float(spec["Tn"]) * float(spec.get("units", 1.0))
+    if spec.get("Tn_int"):
+        # the user types an integer nucleation temperature (Tn=100): rounded here, handed over as a
+        # Python int by phase_info (not unit covariant: only for checks that do not compare units)
+        Tn = float(round(Tn))
+    return Tn
 
 
 # ---------------------------------------------------------------------------
@@ -516,7 +522,7 @@ def phase_info(spec, guess_jitter=0.0):
         lo = np.where(lo != 0, lo * float(gs.get("low", 1.0)), float(gs.get("zero", 0.0)) * big)
     tscale, fscale = scales(spec)
     info = WallGo.PhaseInfo(
-        temperature=float(Tn),
+        temperature=(int(Tn) if spec.get("Tn_int") else float(Tn)),
         phaseLocation1=WallGo.Fields(rel.to_user(hi)),
         phaseLocation2=WallGo.Fields(rel.to_user(lo)),
     )
